@@ -197,6 +197,8 @@ class xRFM:
         if split_temperature is not None and split_temperature < 0:
             raise ValueError("split_temperature must be positive when specified.")
         self.split_temperature = split_temperature
+        # temperature the user configured; tuning starts from it on every fit (not from a previous fit's result)
+        self._configured_split_temperature = split_temperature
 
         if temp_tuning_space is None:
             temp_tuning_space = DEFAULT_TEMP_TUNING_SPACE
@@ -871,6 +873,10 @@ class xRFM:
         if self.n_threads is not None:
             old_n_threads = torch.get_num_threads()
             torch.set_num_threads(self.n_threads)
+
+        if self.use_temperature_tuning:
+            # the temperature is an output of this fit: start from the configured value, not from a previous fit's result
+            self.split_temperature = self._configured_split_temperature
 
         # Convert to torch tensors if needed
         if not isinstance(X, torch.Tensor):
